@@ -970,13 +970,19 @@ def _evaluate_if_future_annotations(cls_dict, previous_frame, v):
         future_import = getattr(
             (globals_from_modules or {}).get("annotations"), "compiler_flag", None
         )
-        if len(v) >= 50 and not future_import:
-            return v
         v = eval(  # pylint: disable=eval-used
             v,
             globals_from_modules,
             previous_frame.f_locals,
         )
+        if isinstance(v, str) and future_import:
+            # a quoted annotation in a module with the future import is stored as the text of a
+            # string literal: evaluate what it contains as well (as typing.get_type_hints does)
+            v = eval(  # pylint: disable=eval-used
+                v,
+                globals_from_modules,
+                previous_frame.f_locals,
+            )
     return v
 
 
